@@ -1,6 +1,6 @@
 (* C13: decode a case (program + controller schedule), run the cancel-scope model, encode the observable trace. *)
 From Coq Require Import ZArith List Bool Arith.
-From EN Require Import Lib.Bytes Lib.Sx Conc.CancelScope.
+From EN Require Import Lib.Bytes Lib.Sx Conc.CancelScope Gen.ParamsC13.
 Import ListNotations.
 
 Definition as_onat (x : sx) : option (option nat) := as_opt as_nat x.
@@ -63,7 +63,7 @@ Definition outcome (st : state) : nat :=
   end.
 
 Definition run_case (p : prog) (timers : list nat) (turns : list (nat * bool)) (k fuel : nat) : state :=
-  run_steps fuel (init p timers turns k).
+  run_steps fuel (init exit_takes_back_leftover p timers turns k).
 
 Definition run (x : sx) : sx :=
   match x with
